@@ -340,8 +340,10 @@ class Check:
         ev = dict(property_id=self.pid, tier=self.tier, seed=self.seed, level=level, coverage=cov,
                   assumptions=assumptions or [], wall_s=round(time.time() - self.t0, 2),
                   violations=len(self.violations))
-        os.makedirs(os.path.join(VERIF, "evidence"), exist_ok=True)
-        with open(os.path.join(VERIF, "evidence", self.pid + ".json"), "w") as f:
+        # X-numbered checks cover behaviour beyond the listed properties (DESIGN.md 10.8); their evidence is kept apart
+        evdir = os.path.join(VERIF, "evidence-extra" if self.pid.startswith("X") else "evidence")
+        os.makedirs(evdir, exist_ok=True)
+        with open(os.path.join(evdir, self.pid + ".json"), "w") as f:
             json.dump(ev, f, indent=1, default=str)
         for clause, sig, desc in self.known_hits:
             print("KNOWN-FINDING: property=%s %s [%s] %s" % (self.pid, clause, sig, desc))
